@@ -116,6 +116,9 @@ func vfC19Run(cs vfC19Case, res *vfC19Res) string {
 	stop := make(chan struct{})
 	var remoteCancelAt time.Time
 	helperHello := func() bool { return bytes.Contains(sess.shellIn.bytes(), []byte("HELLO-FROM-HELPER")) }
+	if cs.Helper == "linger" {
+		os.Setenv("FAKEZM_MODE", "linger")
+	}
 	wg.Add(1)
 	go func() {
 		defer wg.Done()
@@ -275,7 +278,7 @@ func vfGenC19(rt *rapid.T) vfC19Case {
 	if rapid.IntRange(0, 7).Draw(rt, "noise") == 0 {
 		cs.HeaderNoise = rapid.SampledFrom([]string{"cancel", "cannot_open"}).Draw(rt, "noisekind")
 	}
-	cs.Helper = rapid.SampledFrom([]string{"talk", "talk", "silent", "exit_now", "late:600", "missing"}).Draw(rt, "helper")
+	cs.Helper = rapid.SampledFrom([]string{"talk", "talk", "silent", "exit_now", "late:600", "missing", "linger"}).Draw(rt, "helper")
 	cs.HelperExit = rapid.SampledFrom([]int{0, 0, 1, 3}).Draw(rt, "exit")
 	cs.Server = rapid.SampledFrom([]string{"finishes", "cancel_early", "cancel_late", "keeps_sending", "quiet"}).Draw(rt, "server")
 	cs.Reactive = rapid.Bool().Draw(rt, "reactive")
@@ -285,9 +288,12 @@ func vfGenC19(rt *rapid.T) vfC19Case {
 	}
 	// every case needs an end event: the helper exits, cannot start, the remote side cancels, or the user presses Ctrl-C
 	ends := cs.Helper == "exit_now" || cs.Helper == "missing" || cs.Server == "cancel_early" || cs.Server == "cancel_late" || cs.CtrlCMs >= 0 ||
-		((cs.Helper == "talk" || cs.Helper == "late:600") && cs.Server == "finishes")
+		((cs.Helper == "talk" || cs.Helper == "late:600") && cs.Server == "finishes") // a lingering helper never ends by itself
 	if !ends {
 		cs.CtrlCMs = rapid.SampledFrom([]int{200, 500, 1200}).Draw(rt, "forcedctrlc")
+	}
+	if cs.Helper == "linger" && cs.CtrlCMs >= 0 && cs.CtrlCMs < 400 && cs.Server == "finishes" {
+		cs.CtrlCMs = rapid.SampledFrom([]int{600, 900, 1200}).Draw(rt, "lingerctrlc") // after both sides have said goodbye
 	}
 	return cs
 }
